@@ -7,3 +7,4 @@
 pub mod ranges;
 pub mod hx;
 pub mod trackers;
+pub mod workers;
